@@ -189,7 +189,10 @@ def build(kind, seed, calc="auto", logfile=None, size=1):
     kw = dict(seed=seed, logfile=logfile)
     if kind == "can":
         mc = E["Canonical"](a, temperature=2000.0, max_cycles=3, **kw)
-        mc.add_move(E["DisplacementMove"](np.arange(n), E["Ball"](0.2)), name="ball")
+        # a forced move (minimum_count) makes the scheduler draw slot indices, a weight-0.25 move the weighted choice
+        mc.add_move(E["DisplacementMove"](np.arange(n), E["Ball"](0.2)), name="ball", minimum_count=1)
+        mc.add_move(E["DisplacementMove"](np.arange(n), E["Sphere"](0.05)), name="every-other", interval=2,
+                    probability=0.25, minimum_count=1)
         comp = E["DisplacementMove"](np.arange(n), E["Box"](0.1)) + E["DisplacementMove"](np.arange(n), E["Sphere"](0.1))
         mc.add_move(comp, criteria=E["CanonicalCriteria"](), name="comp", probability=0.5)
     elif kind == "ham":
@@ -208,6 +211,7 @@ def build(kind, seed, calc="auto", logfile=None, size=1):
                                  number_of_exchange_particles=n,
                                  default_exchange_move=E["ExchangeMove"](np.arange(n), E["Translation"]()),
                                  default_displacement_move=E["DisplacementMove"](np.arange(n)), **kw)
+        mc.moves["default_displacement_move"].minimum_count = 1
     elif kind == "gcmol":
         h2 = E["Atoms"]("H2", positions=[[0, 0, 0], [0, 0, 0.74]])
         mc = E["GrandCanonical"](a, h2, temperature=4000.0, chemical_potential=0.3, max_cycles=3,
